@@ -205,7 +205,10 @@ def boolStr (b : Bool) : Str := if b then [84, 114, 117, 101] else [70, 97, 108,
 def decIntSer : SerF := fun d i =>
   withItem d i fun v =>
     match v with
-    | .int n => if n < 0 then .none else .ok (1, toBase 10 n.toNat)
+    | .int n =>
+      if n < 0 then .none
+      else if (toBase 10 n.toNat).length > 4300 then .raised .valueError   -- CPython's limit on `str(int)`
+      else .ok (1, toBase 10 n.toNat)
     | .bool b => .ok (1, boolStr b)
     | _ => .none
 def decIntDe : DeF := fun data idx =>
